@@ -42,6 +42,9 @@ type G struct {
 	killed bool
 	Name   string
 	nspawn uint64
+	// stalled: held back by a "stall" deviation until the virtual clock leaves stallAt
+	stalled bool
+	stallAt int64
 	// result slots for completed-by-partner operations
 	rval any
 	rok  bool
@@ -109,6 +112,7 @@ type Sched struct {
 
 	policy    int
 	strictDev bool // every departure from the default schedule costs 1
+	stall     bool // offer "hold the running goroutine until the clock moves" as a further alternative
 	fpNoCur   bool // unbounded search: who is running does not matter
 
 	hooks []func() // per-execution reset hooks registered by shims
@@ -149,6 +153,13 @@ var DefaultPolicy int
 // one (keep running; else lowest id) cost one deviation, also at points where
 // the running goroutine blocked.  Bound 0 is then exactly one schedule.
 var StrictDeviations bool
+
+// StallDeviations adds one more alternative at every scheduling point at which the running goroutine could go
+// on and a timer lies in the future: the goroutine is held back until the virtual clock has moved (a
+// pre-emption that lasts; the maximal-progress clock otherwise never lets time pass while something is
+// runnable).  It costs one deviation.  Only for scenarios whose oracle does not bound how late a goroutine may
+// act.
+var StallDeviations bool
 
 // Active reports whether a controlled execution is in progress.
 func Active() bool { return S.active }
@@ -380,7 +391,7 @@ func (s *Sched) schedule(self *G) {
 		// collect enabled goroutines in canonical order
 		var evG []*G
 		curEnabled := false
-		if !self.done && self.pend != nil && self.pend.isEnabled() {
+		if !self.done && self.pend != nil && !(self.stalled && self.stallAt == s.now) && self.pend.isEnabled() {
 			evG = append(evG, self)
 			curEnabled = true
 		}
@@ -399,12 +410,19 @@ func (s *Sched) schedule(self *G) {
 			if g == self || g.done || g.pend == nil {
 				continue
 			}
+			if g.stalled && g.stallAt == s.now {
+				continue
+			}
 			if g.pend.isEnabled() {
 				evG = append(evG, g)
 			}
 		}
 		due := s.dueTimers()
 		n := len(evG) + len(due)
+		stallable := s.stall && curEnabled && len(s.timers) > 0 && s.timers[0].when > s.now
+		if stallable {
+			n++
+		}
 		if n == 0 {
 			if s.advanceClock() {
 				continue
@@ -434,6 +452,11 @@ func (s *Sched) schedule(self *G) {
 				parkForever(self)
 				return
 			}
+		}
+		if stallable && c == n-1 {
+			self.stalled, self.stallAt = true, s.now
+			self.h = mix(self.h, 0x57a11)
+			continue
 		}
 		if c >= len(evG) {
 			s.fire(due[c-len(evG)])
@@ -600,6 +623,7 @@ func RunOnce(main func(), prefix []int, maxSteps int, prune func(idx int, fp uin
 	s.pruneFn = prune
 	s.fpNoCur = FingerprintIgnoresRunning
 	s.strictDev = StrictDeviations
+	s.stall = StallDeviations
 	s.policy = DefaultPolicy
 	for _, h := range s.hooks {
 		h()
